@@ -314,9 +314,14 @@ class ActionsFamily:
         for _ in range(rng.randint(2, 4)):
             action = rng.choice(['next', 'abort', 'skip', 'error', 'submit', 'remove', 'back'])
             calls.append({'target': {'pid': 'p1', 'kind': 'act', 'state': 'interrupted', 'occ': rng.choice([0, 0, 1, -1])}, 'action': action, 'options': options_for(rng, action, wf, 0.9)})
-        ops = [{'op': 'start', 'mid': 'm1', 'vars': {'pid': 'p1'}}, {'op': 'quiesce'}, {'op': 'race', 'calls': calls}, {'op': 'quiesce'}, {'op': 'snapshot', 'level': 'rows'}, {'op': 'run'}, {'op': 'snapshot', 'level': 'rows'}, {'op': 'probe_acts', 'pid': 'p1', 'evict': True}, {'op': 'quiesce'}]
+        race = {'op': 'race', 'calls': calls}
+        # the process is in nobody's memory when the racing calls are released (a quiescent point): each of them loads it
+        forget = rng.random() < 0.3
+        if forget:
+            race['forget'] = True
+        ops = [{'op': 'start', 'mid': 'm1', 'vars': {'pid': 'p1'}}, {'op': 'quiesce'}, race, {'op': 'quiesce'}, {'op': 'snapshot', 'level': 'rows'}, {'op': 'run'}, {'op': 'snapshot', 'level': 'rows'}, {'op': 'probe_acts', 'pid': 'p1', 'evict': True}, {'op': 'quiesce'}]
         rt = {'flavor': 'multi', 'workers': rng.choice([2, 4]), 'chaos': {'max_yields': 2, 'pause_us': rng.choice([0, 50]), 'seed': rng.randrange(1, 1 << 40)}}
-        sc = {'id': '', 'family': 'actions', 'sched': 'duel', 'seed': rng.randrange(1 << 30), 'runtime': rt, 'engine': {'store': 'mem', 'keep_processes': True},
+        sc = {'id': '', 'family': 'actions', 'sched': 'duel-forget' if forget else 'duel', 'seed': rng.randrange(1 << 30), 'runtime': rt, 'engine': {'store': 'mem', 'keep_processes': True},
               'models': [json.dumps(wf)], 'responder': {'mode': 'quiescent', 'rules': [{'match': {'uses': IRQ}, 'action': 'next', 'times': 100}]}, 'ops': ops}
         return {'scenarios': [sc], 'meta': {'wf': wf, 'kind': kind, 'sub': 'duel'}, 'digest': digest([wf, calls]), 'nontrivial': True}
 
